@@ -496,7 +496,16 @@ ShortLiteral == /\ "short" \in NegKinds /\ phase = "gen" /\ stack # <<>> /\ Top.
                 /\ verdict' = "BAD" /\ cat' = "shortlit" /\ fresh' = TRUE
                 /\ UNCHANGED <<ast, gclass, phase>>
 
-(* cut the derivation where a token has just been produced and more must follow *)
+(* Cut the derivation where a token has just been produced and more must
+   follow.  Soundness: choices are made by Expand only when the non-terminal
+   is on top, i.e. after everything before it has been produced, and no two
+   alternatives of a non-terminal produce texts of which one is a prefix of
+   the other followed by a complete continuation.  So while `fresh` (no
+   Expand since the last produced token) the text determines the stack, and
+   the text is a sentence iff the whole stack can vanish: iff it holds only
+   nullable non-terminals and empty terminals.  StopEarly requires the
+   opposite.  (checks/c08.py additionally refuses to run if one text ever
+   comes out both as OK and as BAD.) *)
 StopEarly == /\ "stop" \in NegKinds /\ phase = "gen" /\ verdict = "OK" /\ fresh /\ SomethingMustFollow(stack)
              /\ stack' = <<>> /\ verdict' = "BAD" /\ cat' = "stop"
              /\ UNCHANGED <<text, ast, fresh, gclass, phase>>
